@@ -71,11 +71,15 @@ class Face(ElementBase):
         for i, point in enumerate(points):
             self.points[i].position = np.array(point, dtype=constants.DTYPE)
 
+    @staticmethod
+    def _check_corner(corner: int) -> None:
+        if not 0 <= corner <= 3:
+            raise FaceCreationError("Provide a corner index between 0 and 3", f"Given corner index: {corner}")
+
     def add_edge(self, corner: int, edge_data: Union[EdgeData, None]) -> None:
         """Replaces an existing edge between corner and (corner+1);
         use None to delete an edge (replace with a straight line)"""
-        if corner > 3:
-            raise FaceCreationError("Provide a corner index between 0 and 3", f"Given corner index: {corner}")
+        self._check_corner(corner)
 
         if edge_data is None:
             self.edges[corner] = Line()
@@ -94,6 +98,7 @@ class Face(ElementBase):
 
     def project_edge(self, corner: int, label: ProjectToType) -> None:
         """Adds a Project edge or add the label to an existing one"""
+        self._check_corner(corner)
         edge = self.edges[corner]
 
         if isinstance(edge, Project):
